@@ -134,8 +134,12 @@ impl WriteSource for pr::ExprKind {
             Range(range) => {
                 let mut r = String::new();
                 if let Some(start) = &range.start {
-                    let start = write_within(start.as_ref(), self, opt.clone())?;
-                    r += opt.consume(&start)?;
+                    let mut start_text = write_within(start.as_ref(), self, opt.clone())?;
+                    if matches!(start.kind, Param(_)) {
+                        // the name of a parameter can contain dots: `$a..5` is one parameter
+                        start_text = format!("({start_text})");
+                    }
+                    r += opt.consume(&start_text)?;
                 }
 
                 r += opt.consume("..")?;
